@@ -203,6 +203,9 @@ func judgeFan(c *hlib.Ctx, prop string, httpEntry bool, rf, rep int, pl [][]int,
 			}
 		}
 	}
+	if code == 200 && failed {
+		c.Violation("ack-though-quorum-impossible", fmt.Sprintf("%s although some series has fewer than %d successful answers", where, q))
+	}
 	if !failed && code != 200 {
 		c.Violation("quorum-reached-not-acknowledged", fmt.Sprintf("%s although every series has %d successful writes", where, q))
 	}
@@ -245,6 +248,20 @@ func permutations(word string, emit func(string)) {
 			a[l], a[r] = a[r], a[l]
 		}
 	}
+}
+
+func sortedKeys(ws map[wkey][]int) []wkey {
+	keys := make([]wkey, 0, len(ws))
+	for k := range ws {
+		keys = append(keys, k)
+	}
+	sort.Slice(keys, func(i, j int) bool {
+		if keys[i].e != keys[j].e {
+			return keys[i].e < keys[j].e
+		}
+		return keys[i].r < keys[j].r
+	})
+	return keys
 }
 
 func showScript(sc []scriptEntry) string {
@@ -353,16 +370,7 @@ func genMulti(c *hlib.Ctx, alphabet string, rounds int) {
 			rep = r.Range(1, rf)
 		}
 		ws := expectedWrites(rf, rep, pl)
-		keys := make([]wkey, 0, len(ws))
-		for k := range ws {
-			keys = append(keys, k)
-		}
-		sort.Slice(keys, func(i, j int) bool {
-			if keys[i].e != keys[j].e {
-				return keys[i].e < keys[j].e
-			}
-			return keys[i].r < keys[j].r
-		})
+		keys := sortedKeys(ws)
 		base := make([]scriptEntry, len(keys))
 		// bias: mostly ok with a failing minority, or conflict/unavailable heavy
 		okNum := r.Range(1, 9)
